@@ -758,31 +758,90 @@ func checkCommandBridge(c *Ctx) {
 			return true
 		})
 		key := ctor.Name + "/goroutine#" + itoa(gi+1)
-		if sw == nil {
-			// no switch: the whole body must send exactly once
+		// the arms: cases of a switch on the signature, or an if / else-if chain comparing it with the gate's constants
+		type sigArm struct {
+			vals []int64
+			name string
+			body []ast.Stmt
+			pos  token.Pos
+			dflt bool
+		}
+		var sarms []sigArm
+		var armsAt token.Pos
+		if sw != nil {
+			armsAt = sw.Pos()
+			for _, cl := range sw.Body.List {
+				cc := cl.(*ast.CaseClause)
+				a := sigArm{body: cc.Body, pos: cc.Pos(), dflt: cc.List == nil, name: "default"}
+				if len(cc.List) > 0 {
+					a.name = exprStr(cc.List[0])
+				}
+				for _, x := range cc.List {
+					if tv, ok := info.Types[x]; ok && tv.Value != nil {
+						v, _ := constant.Int64Val(tv.Value)
+						a.vals = append(a.vals, v)
+					}
+				}
+				sarms = append(sarms, a)
+			}
+		} else {
+			walkNoLit(lit.Body, func(n ast.Node) bool {
+				is, ok := n.(*ast.IfStmt)
+				if !ok || sarms != nil {
+					return true
+				}
+				if pe, isElse := w.parent[is].(*ast.IfStmt); isElse && pe.Else == ast.Stmt(is) {
+					return true
+				}
+				var cand []sigArm
+				okChain := true
+				for _, a := range armsOfIfChain(is) {
+					if len(a.conds) == 0 {
+						cand = append(cand, sigArm{body: a.body, pos: a.pos, dflt: true, name: "else"})
+						continue
+					}
+					b, ok := unparen(a.conds[0]).(*ast.BinaryExpr)
+					if !ok || b.Op != token.EQL {
+						okChain = false
+						break
+					}
+					var cx ast.Expr
+					if id := identOf(b.X); id != nil && info.Uses[id] == sigObj {
+						cx = b.Y
+					} else if id := identOf(b.Y); id != nil && info.Uses[id] == sigObj {
+						cx = b.X
+					}
+					tv, ok := info.Types[cx]
+					if cx == nil || !ok || tv.Value == nil {
+						okChain = false
+						break
+					}
+					v, _ := constant.Int64Val(tv.Value)
+					cand = append(cand, sigArm{vals: []int64{v}, body: a.body, pos: a.pos, name: exprStr(cx)})
+				}
+				if okChain && len(cand) > 0 {
+					sarms, armsAt = cand, is.Pos()
+				}
+				return true
+			})
+		}
+		if sarms == nil {
+			// no dispatch on the signature: the whole body must send exactly once
 			ok, why := sendsExactlyOnce(w, lf, lit.Body.List)
 			c.ob("C10.R4", key+"/completion", w.Pos(lit.Pos()), ok, why)
 			continue
 		}
 		covered := map[int64]bool{}
 		hasDefault := false
-		for _, cl := range sw.Body.List {
-			cc := cl.(*ast.CaseClause)
-			if cc.List == nil {
+		for _, a := range sarms {
+			if a.dflt {
 				hasDefault = true
 			}
-			for _, x := range cc.List {
-				if tv, ok := info.Types[x]; ok && tv.Value != nil {
-					v, _ := constant.Int64Val(tv.Value)
-					covered[v] = true
-				}
+			for _, v := range a.vals {
+				covered[v] = true
 			}
-			name := "default"
-			if len(cc.List) > 0 {
-				name = exprStr(cc.List[0])
-			}
-			ok, why := sendsExactlyOnce(w, lf, cc.Body)
-			c.ob("C10.R4", key+"/arm "+name, w.Pos(cc.Pos()), ok, why)
+			ok, why := sendsExactlyOnce(w, lf, a.body)
+			c.ob("C10.R4", key+"/arm "+a.name, w.Pos(a.pos), ok, why)
 		}
 		var missing []string
 		for v, name := range gateConsts {
@@ -791,7 +850,7 @@ func checkCommandBridge(c *Ctx) {
 			}
 		}
 		sort.Strings(missing)
-		c.ob("C10.R4", key+"/covers-gate", w.Pos(sw.Pos()), len(missing) == 0, map[bool]string{true: "the arms cover every signature the gate accepts for asynchronous invocation", false: "the gate accepts " + strings.Join(missing, ", ") + " but the goroutine has no arm for it: such a command would never report completion"}[len(missing) == 0])
+		c.ob("C10.R4", key+"/covers-gate", w.Pos(armsAt), len(missing) == 0, map[bool]string{true: "the arms cover every signature the gate accepts for asynchronous invocation", false: "the gate accepts " + strings.Join(missing, ", ") + " but the goroutine has no arm for it: such a command would never report completion"}[len(missing) == 0])
 	}
 	if len(goLits) == 0 {
 		c.ob("C10.R4", ctor.Name+"/goroutine", w.Pos(bridge.Node().Pos()), false, "the bridge starts no goroutine")
